@@ -9,7 +9,7 @@ git -C /repo worktree add -q --detach "$wt" HEAD || exit 2
 cleanup() { git -C /repo worktree remove --force "$wt" 2>/dev/null; rm -rf "$vf" "$wt"; }
 trap cleanup EXIT
 git -C "$wt" apply "$patch" || { echo "patch does not apply"; exit 2; }
-mkdir -p "$vf"; rsync -a --exclude work --exclude .git --exclude evidence --exclude replays --exclude seeded /verif/ "$vf/"
+mkdir -p "$vf"; rsync -a --exclude work --exclude .git --exclude evidence --exclude replays --exclude seeded /verif/ "$vf/"; sed -i "s#path = \"/repo\"#path = \"$wt\"#" "$vf/harness/Cargo.toml"
 sed -i "s|path = \"/repo\"|path = \"$wt\"|" "$vf/harness/Cargo.toml"
 for p in "$@"; do
   out=$(cd "$vf" && VERIF_REPO="$wt" VERIF_CACHE=/verif/work/cache VERIF_TLC_WORKERS=4 ./check "$p" 2>&1); rc=$?
